@@ -162,6 +162,20 @@ Fixpoint opt_concat {A : Type} (l : list (option (list A))) : option (list A) :=
   | Some x :: r => match opt_concat r with Some y => Some (x ++ y) | None => None end
   end.
 
+(* attr_str[a..b].trim().is_empty() ; an out-of-range slice (a Rust panic) counts as "not blank": inside fie_pick the
+   slice is always in range when `en` is a recorded `)` (NestedThm.closes_slice_in_range) *)
+Definition blank_between (s : str) (a b : nat) : bool :=
+  match slice a b s with
+  | Some t => match trim t with [] => true | _ :: _ => false end
+  | None => false
+  end.
+
+(* `edit(file)` or, with a trailing comma, `edit(file,)`:
+   n.end == end || ( n.comma == Some(n.end) && attr_str[n.end+1..end].trim().is_empty() ) *)
+Definition closes (s : str) (n : narg) (en : nat) : bool :=
+  Nat.eqb (a_end n) en ||
+  (match a_comma n with Some cm => Nat.eqb cm (a_end n) | None => false end && blank_between s (S (a_end n)) en).
+
 (* one filter_map step of file_in_edit: None = panic, Some None = filtered out *)
 Definition fie_pick (s : str) (e : narg) (st en : nat) (n : narg) : option (option narg) :=
   if Nat.ltb st (a_start n) && Nat.leb (a_end n) en then
@@ -171,9 +185,9 @@ Definition fie_pick (s : str) (e : narg) (st en : nat) (n : narg) : option (opti
         if is_list n then Some (Some n)
         else match a_open e with
              | Some eo =>
-               if Nat.eqb (a_depth n) (a_depth e + 1) && Nat.eqb (a_end n) en && Nat.eqb eo (a_start n - 1)
+               if Nat.eqb (a_depth n) (a_depth e + 1) && closes s n en && Nat.eqb eo (a_start n - 1)
                then Some (Some e) else Some None
-             | None => if Nat.eqb (a_depth n) (a_depth e + 1) && Nat.eqb (a_end n) en then None else Some None
+             | None => if Nat.eqb (a_depth n) (a_depth e + 1) && closes s n en then None else Some None
              end
       else Some None
     | None => None
